@@ -44,8 +44,8 @@ mod h {
         fn duration(&self, _: &Profile, _: Location, _: Location) -> Duration { -7. }
         fn distance(&self, _: &Profile, _: Location, _: Location) -> Distance { -9. }
     }
-    fn ts() -> Float { let v: u8 = kani::any(); v as Float }
-    fn val() -> Float { let v: u16 = kani::any(); v as Float }
+    fn ts() -> Float { let v: u8 = kani::any(); kani::assume(v < 8); v as Float }
+    fn val() -> Float { let v: u8 = kani::any(); kani::assume(v < 16); v as Float }
 
     /// N matrices of one profile (1x1, so the data index is 0) supplied in ARBITRARY order with distinct integer timestamps;
     /// query at an arbitrary integer-valued time. Expected values are computed from the set of (timestamp, value) pairs
